@@ -1511,6 +1511,16 @@ def r03_9(ctx, counts) -> RuleResult:
                 elif d == 'float' and n.args and mentions(n.args[0]) and \
                         not isinstance(n.args[0], ast.Constant):
                     ops.append((n, 'float()', mentions(n.args[0])))
+                elif d == 'int' and len(n.args) == 1 and fam in ('div', 'idiv', 'mod') and any(
+                        isinstance(st, ast.Assign) and isinstance(st.value, ast.BinOp)
+                        and isinstance(st.value.op, (ast.Div, ast.FloorDiv, ast.Mod))
+                        and mentions(st.value)
+                        and any(isinstance(t, ast.Name) and isinstance(n.args[0], ast.Name)
+                                and t.id == n.args[0].id for t in st.targets)
+                        for st in walk_local(f.node)):
+                    # int(q) where q = a // b: an infinite or NaN float quotient cannot be
+                    # converted (OverflowError / ValueError)
+                    ops.append((n, 'int() of a quotient', {n.args[0].id}))
                 elif d.split('.')[-1] in ('list', 'xlist', 'tuple', 'len') and n.args and \
                         isinstance(n.args[0], ast.Call) and dotted(n.args[0].func) == 'range' \
                         and mentions(n.args[0]):
@@ -1529,6 +1539,20 @@ def r03_9(ctx, counts) -> RuleResult:
             if isinstance(n, ast.Call) and n.args and any(
                     o is not n and any(y is o for y in ast.walk(n.args[0])) for o, _, _ in ops):
                 continue        # wrapper of an inner operation which carries the obligation
+            # `isinstance(x, float) and math.f(x)`: a float argument is already a double
+            guarded_float = False
+            for bo in [b for b in walk_local(f.node) if isinstance(b, ast.BoolOp)
+                       and isinstance(b.op, ast.And)]:
+                for i, v in enumerate(bo.values):
+                    if any(y is n for y in ast.walk(v)):
+                        for prev in bo.values[:i]:
+                            if isinstance(prev, ast.Call) and dotted(prev.func) == 'isinstance' \
+                                    and len(prev.args) == 2 and stmt_text(prev.args[1]) == 'float' \
+                                    and isinstance(prev.args[0], ast.Name) \
+                                    and names == {prev.args[0].id}:
+                                guarded_float = True
+            if guarded_float:
+                continue
             n_ops += 1
             caught = False
             for enc in emap[id(n)]:
